@@ -11,6 +11,7 @@ from hv import boot  # noqa: F401
 from hv.core import Result, viol
 from hv.world import Chooser
 
+from collections.abc import Mapping, Sequence  # noqa: E402
 from typing import Any  # noqa: E402
 
 from haiway import MISSING, Missing, State, is_missing, not_missing, when_missing  # noqa: E402
@@ -18,7 +19,7 @@ from haiway import MISSING, Missing, State, is_missing, not_missing, when_missin
 ID = "C20"
 TECHNIQUE = "exhaustive enumeration of container shapes (depth<=3) x obtainers (call, copy, deepcopy, pickle 0-5) and of the predicate x look-alike matrix on the real Missing type"
 RULE = (
-    "all shapes of depth <= 3 over {list, tuple, dict value, State attribute} holding MISSING x "
+    "all shapes of depth <= 3 over {list, tuple, dict value, State attribute (Any / inside a Mapping attribute / inside a Sequence attribute)} holding MISSING x "
     "{Missing(), copy, deepcopy, pickle protocols 0..5}; predicates is_missing / not_missing / "
     "when_missing / bool / == / != over {MISSING, None, False, 0, '', (), [], {}, always-equal "
     "object, forged second instance, the class}; attribute get/set/del; non-trivial = nested "
@@ -36,6 +37,19 @@ SAMPLE_EVERY = {"quick": 150, "thorough": 900}
 class Holder(State):
     v: Any | Missing = MISSING
     n: int = 0
+
+
+class MapHolder(State):
+    m: Mapping[str, Any]
+    n: int = 0
+
+
+class SeqHolder(State):
+    s: Sequence[Any]
+    n: int = 0
+
+
+CONTAINERS = ("list", "tuple", "dict", "state", "mstate", "qstate")
 
 
 class AlwaysEq:
@@ -56,7 +70,7 @@ def shapes(depth: int):
         return
     yield from shapes(depth - 1)
     for inner in _exact(depth - 1):
-        for c in ("list", "tuple", "dict", "state"):
+        for c in CONTAINERS:
             yield [c, inner]
 
 
@@ -65,7 +79,7 @@ def _exact(depth: int):
         yield "M"
         return
     for inner in _exact(depth - 1):
-        for c in ("list", "tuple", "dict", "state"):
+        for c in CONTAINERS:
             yield [c, inner]
 
 
@@ -80,6 +94,10 @@ def build(shape):
         return (x, 1)
     if c == "dict":
         return {"k": x, "o": 1}
+    if c == "mstate":
+        return MapHolder(m={"k": x, "o": 1}, n=1)
+    if c == "qstate":
+        return SeqHolder(s=[x, 1], n=1)
     return Holder(v=x, n=1)
 
 
@@ -91,6 +109,10 @@ def leaf(shape, value):
             value = value[0]
         elif c == "dict":
             value = value["k"]
+        elif c == "mstate":
+            value = value.m["k"]
+        elif c == "qstate":
+            value = value.s[0]
         else:
             value = value.v
     return value
@@ -98,7 +120,7 @@ def leaf(shape, value):
 
 def has_state(shape) -> bool:
     while shape != "M":
-        if shape[0] == "state":
+        if shape[0] in ("state", "mstate", "qstate"):
             return True
         shape = shape[1]
     return False
